@@ -132,6 +132,6 @@ func FuzzProgram(f *testing.F) {
 // knownShapeOfText: a coarse text test for the reported shapes (the fuzzer has
 // no argument classes); it only has to keep the fuzzer away from them.
 func knownShapeOfText(up string) bool {
-	return strings.Contains(up, "RAND") || strings.Contains(up, "JSON_VALUE") || (strings.Contains(up, "PERCENT") && strings.Contains(up, "NAN")) ||
+	return strings.Contains(up, "RAND") || strings.Contains(up, "JSON_VALUE") || strings.Contains(up, "PAD") || (strings.Contains(up, "PERCENT") && strings.Contains(up, "NAN")) ||
 		(strings.Contains(up, "JSON") && strings.Contains(up, "."))
 }
